@@ -236,6 +236,8 @@ pub struct World {
     pub all_refs_ever: HashSet<Ref>,
     /// DOM came out of the XML reader (open finding: its ids are not registered)
     pub from_xml: Vec<bool>,
+    /// a problem met while the start DOMs were built (reported by `run_history`)
+    pub init_error: Option<Fail>,
 }
 
 /// A failure some other property states as well: a UniqueId that changed although nothing collided is a
@@ -272,25 +274,34 @@ struct Flat {
     specs: Vec<BNode>,
 }
 
-fn flatten(tree: &BNode) -> Flat {
+/// `other_thread`: the referents are drawn by a freshly spawned thread (DOMs and builders made on
+/// different threads meet in one history; `Ref::new()` must be unique process-wide).
+fn flatten(tree: &BNode, other_thread: bool) -> Flat {
     let mut f = Flat {
         refs: vec![],
         parent: vec![],
         specs: vec![],
     };
-    fn go(n: &BNode, parent: Option<usize>, f: &mut Flat) {
+    let n = tree.count();
+    let mut fresh: Vec<Ref> = if other_thread {
+        std::thread::spawn(move || (0..n).map(|_| Ref::new()).collect::<Vec<_>>()).join().unwrap()
+    } else {
+        (0..n).map(|_| Ref::new()).collect()
+    };
+    fresh.reverse();
+    fn go(n: &BNode, parent: Option<usize>, f: &mut Flat, fresh: &mut Vec<Ref>) {
         let idx = f.refs.len();
-        f.refs.push(Ref::new());
+        f.refs.push(fresh.pop().unwrap());
         f.parent.push(parent);
         f.specs.push(BNode {
             children: vec![],
             ..n.clone()
         });
         for c in &n.children {
-            go(c, Some(idx), f);
+            go(c, Some(idx), f, fresh);
         }
     }
-    go(tree, None, &mut f);
+    go(tree, None, &mut f, &mut fresh);
     f
 }
 
@@ -302,13 +313,19 @@ impl World {
             seen_ids: HashSet::new(),
             all_refs_ever: HashSet::new(),
             from_xml: vec![],
+            init_error: None,
         };
         for i in 0..4 {
             w.seen_ids.insert(uid_pool(i));
         }
-        for tree in &h.doms {
+        for (di, tree) in h.doms.iter().enumerate() {
             // DOM roots never carry Refs to other DOMs at creation
-            let flat = flatten(tree);
+            let flat = flatten(tree, di >= 1 && h.ops.len() % 2 == 0);
+            for r in &flat.refs {
+                if !w.all_refs_ever.insert(*r) && w.init_error.is_none() {
+                    w.init_error = Some(fail("c09:fresh-referent-repeats", format!("Ref::new() returned {r}, which an earlier Ref::new() of this process already returned")));
+                }
+            }
             let absent = Ref::new();
             let (builder, mnodes) = w.make_builder(&flat, usize::MAX, absent);
             let dom = WeakDom::new(builder);
@@ -387,21 +404,74 @@ impl World {
                 mnodes[p].1.children.push(r);
             }
         }
+        // Every way the builder API offers to say the same thing is used; which one is a pure
+        // function of the node's spec, so a case stays replayable and shrinkable.
         fn build(i: usize, flat: &Flat, mnodes: &[(Ref, MNode)]) -> InstanceBuilder {
             let (r, m) = &mnodes[i];
-            let mut b = InstanceBuilder::new(m.class.as_str())
-                .with_referent(*r)
-                .with_name(m.name.clone());
-            for (k, v) in &m.props {
-                match v {
-                    MVal::Ref(x) => b.add_property(k.as_str(), *x),
-                    MVal::Uid(u) => b.add_property(k.as_str(), *u),
+            let spec = &flat.specs[i];
+            let style = spec.class as usize * 7 + spec.name as usize * 3 + spec.refs.len() * 5 + spec.children.len() + i;
+            let mut b = match style % 3 {
+                0 => InstanceBuilder::new(m.class.as_str()),
+                1 => InstanceBuilder::empty().with_class(m.class.as_str()),
+                _ => {
+                    let mut b = InstanceBuilder::with_property_capacity("Placeholder", 3);
+                    b.set_class(m.class.as_str());
+                    b
                 }
+            };
+            b = b.with_referent(*r);
+            if style % 2 == 0 {
+                b = b.with_name(m.name.clone());
+            } else {
+                b.set_name(m.name.clone());
             }
-            for (j, p) in flat.parent.iter().enumerate() {
-                if *p == Some(i) {
-                    b.add_child(build(j, flat, mnodes));
+            let props: Vec<(String, rbx_types::Variant)> = m
+                .props
+                .iter()
+                .map(|(k, v)| {
+                    (
+                        k.clone(),
+                        match v {
+                            MVal::Ref(x) => rbx_types::Variant::Ref(*x),
+                            MVal::Uid(u) => rbx_types::Variant::UniqueId(*u),
+                        },
+                    )
+                })
+                .collect();
+            match (style / 2) % 4 {
+                0 => {
+                    for (k, v) in props {
+                        b.add_property(k.as_str(), v);
+                    }
                 }
+                1 => {
+                    for (k, v) in props {
+                        b = b.with_property(k.as_str(), v);
+                    }
+                }
+                2 => b = b.with_properties(props.iter().map(|(k, v)| (k.as_str(), v.clone()))),
+                _ => b.add_properties(props.iter().map(|(k, v)| (k.as_str(), v.clone()))),
+            }
+            let kids: Vec<InstanceBuilder> = flat
+                .parent
+                .iter()
+                .enumerate()
+                .filter(|(_, p)| **p == Some(i))
+                .map(|(j, _)| build(j, flat, mnodes))
+                .collect();
+            match (style / 3) % 4 {
+                0 => {
+                    for k in kids {
+                        b.add_child(k);
+                    }
+                }
+                1 => {
+                    for k in kids {
+                        b = b.with_child(k);
+                    }
+                }
+                2 => b = b.with_children(kids),
+                _ => b.add_children(kids),
             }
             b
         }
@@ -726,7 +796,12 @@ impl World {
                     None => Ref::none(),
                     Some(k) => live[pick(*k, live.len()).unwrap()],
                 };
-                let flat = flatten(tree);
+                let flat = flatten(tree, tree.count() % 5 == 2);
+                for r in &flat.refs {
+                    if self.all_refs_ever.contains(r) {
+                        return Err(fail("c09:fresh-referent-repeats", format!("Ref::new() returned {r}, which is already in use in this process")));
+                    }
+                }
                 let absent = Ref::new();
                 let (builder, mnodes) = self.make_builder(&flat, d, absent);
                 let before = self.model[d].held_ids();
@@ -1233,6 +1308,9 @@ fn two_mut<T>(v: &mut [T], a: usize, b: usize) -> (&mut T, &mut T) {
 /// Run a history; the first oracle failure is returned.
 pub fn run_history(h: &History, ctx: &mut CaseCtx) -> R {
     let mut w = World::new(h);
+    if let Some(f) = w.init_error.take() {
+        return Err(f);
+    }
     for d in 0..w.model.len() {
         let refs: Vec<Ref> = w.model[d].order.clone();
         for r in refs {
